@@ -127,6 +127,11 @@ func settle(n *node.Node, d time.Duration, f func(serf.Event)) {
 // missing decides what a missing expected effect means: a violation only when
 // the scheduler was demonstrably healthy during the wait.
 func missing(x *vkit.Ctx, mon *vkit.Monitor, sig, f string, a ...any) {
+	// A stall of the whole process (the box is shared, and a VM can be paused)
+	// makes the waiting goroutine see its deadline pass the moment it resumes,
+	// possibly before the monitor goroutine has run again and recorded the gap:
+	// let the monitor take a few ticks before asking it.
+	time.Sleep(25 * time.Millisecond)
 	if g := mon.MaxGap(); g > starveGap {
 		x.Inconclusive(fmt.Sprintf("starved (%s)", sig))
 		return
